@@ -1,6 +1,7 @@
 package client
 
 import (
+	"errors"
 	"bytes"
 	"context"
 	"io"
@@ -31,6 +32,7 @@ type zzPipe struct {
 	frames  [][]byte
 	closes  int
 	stalled bool // the peer has stopped reading: a write stays in the socket until the socket is closed
+	broken  bool // the peer has reset the stream: every write fails (reads end when the socket is closed)
 }
 
 func zzNewPipe() *zzPipe {
@@ -62,6 +64,9 @@ func (c *zzPipe) Write(b []byte) (int, error) {
 		<-c.closedC
 		return 0, net.ErrClosed
 	}
+	if c.broken {
+		return 0, zzErrReset
+	}
 	c.frames = append(c.frames, append([]byte(nil), b...))
 	return len(b), nil
 }
@@ -89,6 +94,8 @@ func zzNewPipeConnH(nc *zzPipe, handler HandlerFunc, maxSize uint32) *Conn {
 
 func zzNewPipeConnMon(nc *zzPipe, mon InactivityMonitor) *Conn { return zzNewPipeConnX(nc, nil, 1152, mon) }
 
+var zzErrReset = errors.New("connection reset by peer")
+var zzPipeSendCSM bool // the next connection announces itself with a CSM like the default configuration does
 var zzPipeRequestMonitor RequestMonitorFunc // optional request monitor for the next connection created
 var zzPipePoolSize uint32                  // pool size of the next connection created (0: no recycling)
 var zzPipeLimits [2]int64                  // total / per-endpoint parallel-request limits of the next connection (0: 4)
@@ -114,7 +121,8 @@ func zzNewPipeConnX(nc *zzPipe, handler HandlerFunc, maxSize uint32, mon Inactiv
 	}
 	cfg.ReceivedMessageQueueSize = 2
 	cfg.ConnectionCacheSize = 64
-	cfg.DisableTCPSignalMessageCSM = true
+	cfg.DisableTCPSignalMessageCSM = !zzPipeSendCSM
+	zzPipeSendCSM = false
 	cfg.CloseSocket = true
 	if mon != nil {
 		return NewConnWithOpts(coapNet.NewConn(nc), &cfg, WithInactivityMonitor(mon))
